@@ -54,6 +54,21 @@ CHECKS = {
         note="Trusted: Coq kernel + vm_compute; harness; pandas Index.get_indexer modelled (exact/pad/backfill/nearest) and "
              "compared on every case; NaN-skipping reductions on small integers. Print Assumptions: closed under the global context.",
         technique="Coq proof (loop invariant by induction on fuel, sorted-axis lookup lemmas) + exhaustive small-scope correspondence"),
+    "C09": dict(
+        cat="proof",
+        text="Theorems (Props/C09.v) about a Gallina model of get_calibration_indices (searchsorted left/right, per group), "
+             "to_linspace, the accessor's validation ladder and attrs, and the per-group gather/scatter of gammastd_grp with "
+             "the per-series kernel as a parameter: the index range is exactly {i | begin <= t_i <= end} for every strictly "
+             "increasing axis and every begin/end; ValueError iff the window has < 2 steps; attrs are the first/last step in "
+             "the window; to_linspace preserves the partition onto 0..k-1; the grouped result decomposes per group, is "
+             "invariant under every relabelling of the partition and equals the ungrouped kernel for one group. Tied to "
+             "/repo by exact correspondence of indices, re-labelling, raise/attrs, and by running the decomposition / "
+             "relabelling laws on the implementation itself.",
+        ref="7 (C09)",
+        note="Trusted: Coq kernel + vm_compute; harness; numpy searchsorted/unique modelled by documented behaviour and "
+             "compared on every case; string labels enter via an order-isomorphic integer code; axes < 32768 steps "
+             "(int16 cal_indices). Print Assumptions: closed under the global context.",
+        technique="Coq proof (sorted-list lemmas, gather/scatter algebra) + correspondence + metamorphic checks on the implementation"),
 }
 
 PENDING = "no check has been built for this property yet (work in progress; see DESIGN.md section 7 for the plan)"
